@@ -115,8 +115,8 @@ def unit_find_real_name(present):
     return run
 
 
-def unit_conf_changed(is_list, reported):
-    """reported: 'one' | 'many' | 'unset'"""
+def unit_conf_changed(is_list, reported, pending_edit=False):
+    """reported: 'one' | 'many' | 'unset'; pending_edit: this controller has an unsaved local edit of the same option"""
     def run(ctx):
         ctx.fn(MODULE, 'TorConfig._conf_changed')
         import txtorcon.torconfig as tc
@@ -153,7 +153,7 @@ def unit_conf_changed(is_list, reported):
             path.assume(z3.InRe(dflt, z3.Plus(z3.Range('0', '9'))))
         H[('f', o, '_defaults')] = VUnion([(has_default, ex.new_dict(path, [(VStr(name), VStr(dflt))])),
                                            (z3.Not(has_default), ex.new_dict(path, []))])
-        H[('f', o, 'unsaved')] = ex.new_dict(path, [])
+        H[('f', o, 'unsaved')] = ex.new_dict(path, [(VStr(name), VStr(z3.String('locally_edited_value')))] if pending_edit else [])
         ctx.cover('pre_satisfiable', path)
         outs = ex.getattr_v(path, cfg, '_conf_changed')
         outs = ex.call(outs[0][0], outs[0][1], [VStr(z3.String('payload'))], {})
@@ -212,6 +212,7 @@ def units():
             if not is_list and rep == 'many':
                 continue
             out.append(('C11/_conf_changed/%s/%s' % ('list' if is_list else 'scalar', rep), unit_conf_changed(is_list, rep)))
+            out.append(('C11/_conf_changed/%s/%s/pending_local_edit' % ('list' if is_list else 'scalar', rep), unit_conf_changed(is_list, rep, True)))
     return out
 
 
